@@ -552,7 +552,7 @@ func init() {
 	fw.Register(&fw.Prop{
 		ID:    "C05",
 		Level: "exploration",
-		Rule:  "for every command that maps onto handler operations: all well-formed argument vectors from the independent grammar (positional values over small per-kind pools incl. binary/CRLF strings and boundary integers/floats, list tails of 1..3 elements with duplicates, pair lists with repeated keys, every legal option subset in every order for SET/ZADD/ZRANGE/ZRANGEBYSCORE/EXPIRE/SCAN/LPOP) x 3 letter-case variants x SELECT {0,3} (and, for SELECT 0, delivered whole, byte by byte, and with a read boundary after every CR); plus an arity ladder (every list / pair-list / score-member command with 15..4097 elements around the powers of two; thorough to 65537); plus the primitive call of every delegating composite (key/field passed through; ZREVRANGEBYSCORE bounds and exclusive markers on the right side), history independence (every valid catalogue request of every command, run first on another connection with a handler reporting everything present and one reporting everything absent, then up to four representative requests per command: the calls recorded for the later request are those predicted for it alone), AUTH forms, an application-registered executor (registered before any traffic, and registered or replaced after requests in every subset of three letter-case spellings: 6 commands x 8 histories x once/twice x 3 later spellings) and unknown names at edit distance 1. Each case is a distinct request; all are non-trivial (each compares the recorded handler calls with the predicted ones). A handler error - also of the n-th call of a composite command (HMGET, MGET, MSET, HMSET, the sugar commands) - must be what the client receives.",
+		Rule:  "for every command that maps onto handler operations: all well-formed argument vectors from the independent grammar (positional values over small per-kind pools incl. binary/CRLF strings and boundary integers/floats, list tails of 1..3 elements with duplicates, pair lists with repeated keys, every legal option subset in every order for SET/ZADD/ZRANGE/ZRANGEBYSCORE/EXPIRE/SCAN/LPOP) x 3 letter-case variants x SELECT {0,3} (and, for SELECT 0, delivered whole, byte by byte, and with a read boundary after every CR); plus an arity ladder (every list / pair-list / score-member command with 15..4097 elements around the powers of two; thorough to 65537); plus the primitive call of every delegating composite (key/field passed through; ZREVRANGEBYSCORE bounds and exclusive markers on the right side), history independence (every valid catalogue request of every command, run first on another connection with a handler reporting everything present and one reporting everything absent, then up to four representative requests per command: the calls recorded for the later request are those predicted for it alone), AUTH forms, an application-registered executor (registered before any traffic, and registered or replaced after requests in every subset of three letter-case spellings: 6 commands x 8 histories x once/twice x 3 later spellings) and unknown names at edit distance 1. Each case is a distinct request; all are non-trivial (each compares the recorded handler calls with the predicted ones). A handler error - also of the n-th call of a composite command (HMGET, MGET, MSET, HMSET, the sugar commands) - must be what the client receives. The counters hand the exact sum to Set, also when it is the largest or smallest 64-bit integer.",
 		Assumptions: []string{
 			"the grammar in /verif/grammar (written from the Redis reference and the handler interface) is the reference for the expected call",
 			"SCAN patterns are compared behaviourally on 14 probe keys; ZRANGE BYSCORE REV, SCAN TYPE, BYLEX are not generated (the interface cannot express them unambiguously)",
